@@ -798,8 +798,12 @@ class Task:
     @children.setter
     def children(self, value: Union['Task', Iterable['Task']]):
         """Setter for children tasks"""
-        value = _to_list(value)
+        value = _unique_tasks(_to_list(value))
         _check_no_nones_in_list(value, 'children')
+
+        for ch in value:
+            if ch is self:
+                raise RuntimeError(f"Task {self.id} can't be a child of itself")
 
         if self.__wbs is None:
             # If self.__wbs is None, all children wbs must be None
@@ -821,14 +825,22 @@ class Task:
         for ch in value:
             if self in ch.all_children:
                 raise RuntimeError(f"Task {self.id} is a child of {ch.id}. Can't make child a parent of its parent")
+            ch.__check_no_links_with(self)
 
+        # All checks are done. Nothing below can fail, so a rejected call changes nothing.
         for v in self.__children:
-            v.__parent = None
-
-        self.__children.clear()
+            if v not in value:
+                # The task is released: it has no parent and no owner WBS any more
+                v.__parent = None
+                v._detach()
 
         for v in value:
-            v.parent = self
+            if v.__parent is not None and v.__parent is not self and v in v.__parent.__children:
+                v.__parent.__children.remove(v)
+            v.__parent = self
+            v._attach(self.__wbs)
+
+        self.__children[:] = value
 
     @property
     def all_children(self) -> _ImmutableTaskList:
